@@ -173,6 +173,18 @@ mutual
   decreasing_by all_goals (simp only [sizeItems, Json.size]; omega)
 end
 
+/-- the `range` loop visits the entries one by one: its marks are the concatenation of what each
+    entry contributes (so a different iteration order permutes them, nothing else) -/
+theorem markEntries_flatMap (join : Nat → Bytes → Bytes → Bytes) (d : Nat) (pre : Bytes)
+    (kvs : List (Bytes × Json)) :
+    markEntries join d pre kvs =
+      kvs.flatMap fun kv => join d pre kv.1 :: markBelow join d (join d pre kv.1) kv.2 := by
+  induction kvs with
+  | nil => simp [markEntries]
+  | cons kv rest ih =>
+    obtain ⟨k, v⟩ := kv
+    simp [markEntries, ih]
+
 /-! ### the model marks the renderings of the enumeration -/
 
 /-- the dotted path the model builds for the segment path `sp` met at depth `d` under `pre` -/
